@@ -136,6 +136,16 @@ static int op_set_f(int argc, tok_t *a, out_t *o) {
   mpq_set_f(q, f); out_mpq(o, q);
   mpq_clear(q); mpf_clear(f); return 0;
 }
+/* mpq_get_num / mpq_get_den n d z0 : the destination mpz holds z0 before the call */
+static int op_get_numden(int which, int argc, tok_t *a, out_t *o) {
+  NEED(argc == 3 && allnum(argc, a));
+  mpq_t q; mpz_t z; mpq_init(q); mpz_init(z); load(q, &a[0], &a[1]); tok_mpz(z, &a[2]);
+  if (which) mpq_get_den(z, q); else mpq_get_num(z, q);
+  out_mpz(o, z); out_mpq(o, q);
+  mpq_clear(q); mpz_clear(z); return 0;
+}
+static int op_get_num(int c, tok_t *a, out_t *o) { return op_get_numden(0, c, a, o); }
+static int op_get_den(int c, tok_t *a, out_t *o) { return op_get_numden(1, c, a, o); }
 static int op_get_d(int argc, tok_t *a, out_t *o) {
   NEED(argc == 2 && allnum(argc, a));
   mpq_t q; mpq_init(q); load(q, &a[0], &a[1]);
@@ -195,7 +205,7 @@ const opdef_t ops_mpq[] = {
   {"mpq_canonicalize", op_canonicalize},
   {"mpq_set_z", op_set_z}, {"mpq_set_num", op_set_num}, {"mpq_set_den", op_set_den},
   {"mpq_set_si", op_set_si}, {"mpq_set_ui", op_set_ui}, {"mpq_set_d", op_set_d},
-  {"mpq_set_f", op_set_f}, {"mpq_get_d", op_get_d},
+  {"mpq_set_f", op_set_f}, {"mpq_get_d", op_get_d}, {"mpq_get_num", op_get_num}, {"mpq_get_den", op_get_den},
   {"mpq_swap", op_swap}, {"mpq_cmp", op_cmp}, {"mpq_equal", op_equal},
   {"mpq_cmp_z", op_cmp_z}, {"mpq_cmp_ui", op_cmp_ui}, {"mpq_cmp_si", op_cmp_si},
   {0, 0}
